@@ -650,4 +650,344 @@ class Qcow2Suite(Suite):
                 "malformed": case.get("malformed") or "no"}
 
 
-SUITES = {"qcow2": Qcow2Suite()}
+
+# ============================================================================ VHDX
+from uuid import UUID  # noqa: E402
+
+G = {k: UUID(v) for k, v in {
+    "bat": "2DC27766-F623-4200-9D64-115E9BFD4A08", "metadata": "8B7CA206-4790-4B9A-B8FE-575F050F886E",
+    "file_parameters": "CAA16737-FA36-4D43-B3B6-33F0AA44E76B", "size": "2FA54224-CD1B-4876-B211-5DBED83BF4B8",
+    "id": "BECA12AB-B2E6-4523-93EF-C309E000C746", "logical": "8141BF1D-A96F-4709-BA47-F233A8FAAB5F",
+    "physical": "CDA348C7-445D-4471-9CC9-E9885251C556", "locator": "A8D35F2D-B30B-454D-ABF7-D3D84834AB0C",
+    "vhdx_locator_type": "B04AEFB7-D19E-4A81-B789-25B8E9445913"}.items()}
+KB64 = 65536
+
+
+def x_header_bytes(h):
+    return (bytes.fromhex(h["signature"]) + struct.pack("<IQ", h["checksum"], h["seq"]) + bytes.fromhex(h["file_write_guid"])
+            + bytes.fromhex(h["data_write_guid"]) + bytes.fromhex(h["log_guid"])
+            + struct.pack("<HHIQ", h["log_version"], h["version"], h["log_length"], h["log_offset"]))
+
+
+def x_region_bytes(t):
+    out = bytes.fromhex(t["signature"]) + struct.pack("<II", t["checksum"], t.get("count", len(t["entries"]))) + b"\x00" * 4
+    for g, off, ln, req in t["entries"]:
+        out += UUID(g).bytes_le + struct.pack("<QII", off, ln, req)
+    return out
+
+
+def x_locator_bytes(loc):
+    """header + entry table + strings placed as the case dictates"""
+    ents = loc["entries"]
+    n = len(ents)
+    table_end = 20 + 12 * n
+    blobs = []
+    for i, (k, v) in enumerate(ents):
+        kb = bytes.fromhex(loc["raw"][i][0]) if loc.get("raw") else k.encode("utf-16-le")
+        vb = bytes.fromhex(loc["raw"][i][1]) if loc.get("raw") else v.encode("utf-16-le")
+        blobs.append((i, 0, kb))
+        blobs.append((i, 1, vb))
+    order = loc.get("order") or list(range(len(blobs)))
+    pos = table_end + loc.get("lead_gap", 0)
+    where = {}
+    body = b""
+    for bi in order:
+        i, kv, b = blobs[bi]
+        where[(i, kv)] = pos
+        body += b + b"\x00" * loc.get("gap", 0)
+        pos += len(b) + loc.get("gap", 0)
+    out = UUID(loc["type"]).bytes_le + struct.pack("<HH", 0, loc.get("count", n))
+    for i in range(n):
+        out += struct.pack("<IIHH", where[(i, 0)], where[(i, 1)], len(blobs[2 * i][2]), len(blobs[2 * i + 1][2]))
+    return out + b"\x00" * loc.get("lead_gap", 0) + body
+
+
+def x_item_bytes(c, name):
+    if name == "file_parameters":
+        return struct.pack("<II", c["block_size"], (c["leave_allocated"] & 1) | ((c["has_parent"] & 1) << 1)
+                           | (c.get("fp_reserved", 0) << 2))
+    if name == "size":
+        return struct.pack("<Q", c["size"])
+    if name == "id":
+        return bytes.fromhex(c["id"])
+    if name == "logical":
+        return struct.pack("<I", c["sector_size"])
+    if name == "physical":
+        return struct.pack("<I", c["physical_sector_size"])
+    if name == "locator":
+        return x_locator_bytes(c["locator"])
+    return bytes.fromhex(c["unknown_item"])
+
+
+def x_build(c):
+    chunks = {0: bytes.fromhex(c["file_sig"]) + "verif".encode("utf-16-le")}
+    chunks[KB64] = x_header_bytes(c["h1"])
+    chunks[2 * KB64] = x_header_bytes(c["h2"])
+    chunks[3 * KB64] = x_region_bytes(c["rt1"])
+    chunks[4 * KB64] = x_region_bytes(c["rt2"])
+    mo = c["metadata_offset"]
+    items = c["items"]            # [name, guid, rel offset, flags]
+    md = bytes.fromhex(c["meta_sig"]) + b"\x00\x00" + struct.pack("<H", c.get("meta_count", len(items))) + b"\x00" * 20
+    for name, g, rel, flags in items:
+        md += UUID(g).bytes_le + struct.pack("<III", rel, len(x_item_bytes(c, name)), flags) + b"\x00" * 4
+    chunks[mo] = md
+    for name, g, rel, flags in items:
+        chunks[mo + rel] = x_item_bytes(c, name)
+    return chunks, c["file_size"]
+
+
+def x_gen(rng, tier, malformed=False, parent_ok=True):
+    def hdr(seq):
+        return {"signature": b"head".hex(), "checksum": rng.getrandbits(32), "seq": seq,
+                "file_write_guid": rng.randbytes(16).hex(), "data_write_guid": rng.randbytes(16).hex(),
+                "log_guid": rng.pick([bytes(16), rng.randbytes(16)]).hex(), "log_version": 0, "version": 1,
+                "log_length": rng.pick([0, 1 << 20]), "log_offset": rng.pick([0, 1 << 20])}
+    a = rand_int(rng, 64)
+    rel = rng.weighted([("gt", 3), ("lt", 3), ("eq", 1), ("adjacent", 3)])
+    if rel == "gt":
+        s1, s2 = max(a, 1), rng.randrange(0, max(a, 1))
+    elif rel == "lt":
+        s2, s1 = max(a, 1), rng.randrange(0, max(a, 1))
+    elif rel == "adjacent":
+        b = min(a, (1 << 64) - 2)
+        s1, s2 = (b, b + 1) if rng.chance(0.5) else (b + 1, b)
+    else:
+        s1 = s2 = a
+    h1, h2 = hdr(s1), hdr(s2)
+    if rel == "eq":
+        h2 = dict(h1)
+    has_parent = 1 if (parent_ok and rng.chance(0.5)) else 0
+    mo = KB64 * rng.randint(5, 9)
+    bat_off = (1 << 20) * rng.randint(1, 5)
+    regions = [[str(G["bat"]), bat_off, 1 << 20, 1], [str(G["metadata"]), mo, 1 << 20, 1]]
+    for _ in range(rng.weighted([(0, 4), (1, 1), (3, 1)])):
+        regions.append([str(UUID(bytes=rng.randbytes(16))), (1 << 20) * rng.randint(6, 50), 1 << 20, 0])
+    rng.shuffle(regions)
+    rt = {"signature": b"regi".hex(), "checksum": rng.getrandbits(32), "entries": regions}
+    c = {"file_sig": b"vhdxfile".hex(), "h1": h1, "h2": h2, "seq_rel": rel, "rt1": rt, "rt2": dict(rt),
+         "metadata_offset": mo, "meta_sig": b"metadata".hex(),
+         "block_size": (1 << 20) * rng.pick([1, 2, 8, 32, 256]), "leave_allocated": rng.randrange(2),
+         "has_parent": has_parent, "size": rng.weighted([(rand_int(rng, 44) or 1, 3), ((1 << 20) * rng.randint(1, 9999), 3)]),
+         "id": rng.randbytes(16).hex(), "sector_size": rng.pick([512, 4096]), "physical_sector_size": rng.pick([512, 4096]),
+         "malformed": None}
+    names = ["file_parameters", "size", "id", "logical", "physical"] + (["locator"] if has_parent or rng.chance(0.15) else [])
+    if "locator" in names:
+        maxe = 12
+        ne = rng.weighted([(1, 2), (3, 3), (5, 3), (rng.randint(1, maxe), 3)])
+        ents = [["relative_path", rng.pick(["parent.vhdx", ".\\parent.vhdx"])]]
+        std = [("parent_linkage", "{%s}" % UUID(bytes=rng.randbytes(16))), ("parent_linkage2", "{%s}" % UUID(bytes=rng.randbytes(16))),
+               ("volume_path", "\\\\?\\Volume{%s}\\dir\\parent.vhdx" % UUID(bytes=rng.randbytes(16))),
+               ("absolute_win32_path", "C:\\" + rand_text(rng, rng.randint(1, 30), extra=" \\") + "\\parent.vhdx")]
+        rng.shuffle(std)
+        while len(ents) < ne:
+            if std and rng.chance(0.7):
+                ents.append(list(std.pop()))
+            else:
+                k = rand_text(rng, rng.randint(1, 12))
+                if all(k != e[0] for e in ents):
+                    ents.append([k, rand_text(rng, rng.weighted([(0, 1), (rng.randint(1, 80), 5)]), extra=" \\")])
+        rng.shuffle(ents)
+        order = list(range(2 * len(ents)))
+        if rng.chance(0.5):
+            rng.shuffle(order)
+        c["locator"] = {"type": str(G["vhdx_locator_type"]), "entries": ents, "order": order,
+                        "gap": rng.pick([0, 0, 2, 5]), "lead_gap": rng.pick([0, 0, 4])}
+    rng.shuffle(names)
+    items = []
+    rel_off = 32 + 32 * (len(names) + 2) + rng.pick([0, 16, 1000])
+    for nme in names:
+        flags = {"file_parameters": 4, "size": 6, "id": 6, "logical": 6, "physical": 6, "locator": 4}[nme]
+        items.append([nme, str(G[nme]), rel_off, flags])
+        rel_off += len(x_item_bytes(c, nme)) + rng.pick([0, 3, 8, 64])
+    c["items"] = items
+    c["file_size"] = mo + rel_off + 64
+    if malformed:
+        x_mutate(rng, c)
+    return c
+
+
+def x_mutate(rng, c):
+    m = rng.pick(["file_sig", "head_sig", "regi_sig", "meta_sig", "truncate", "region_count", "meta_count", "no_region",
+                  "no_item", "unknown_item", "zero", "locator_type", "bad_utf16", "dup_key", "dup_region", "block0",
+                  "locator_count"])
+    c["malformed"] = m
+    loc = c.get("locator")
+    if m == "file_sig":
+        c["file_sig"] = b"vhdxfilf".hex()
+    elif m == "head_sig":
+        which = rng.pick(["h1", "h2"])
+        c[which]["signature"] = b"hear".hex()
+    elif m == "regi_sig":
+        c[rng.pick(["rt1", "rt2"])] = dict(c["rt1"], signature=b"regx".hex())
+    elif m == "meta_sig":
+        c["meta_sig"] = b"metadatb".hex()
+    elif m == "truncate":
+        c["file_size"] = rng.pick([0, 100, 520, KB64 + 10, KB64 + 4176, 2 * KB64 + 4175, 3 * KB64 + 20, 4 * KB64 + 16,
+                                   c["metadata_offset"] + 40, c["metadata_offset"] + c["items"][-1][2] + 2])
+    elif m == "region_count":
+        c["rt1"] = dict(c["rt1"], count=rng.pick([0, len(c["rt1"]["entries"]) - 1, 1 << 20, 0xFFFFFFFF]))
+    elif m == "meta_count":
+        c["meta_count"] = rng.pick([0, len(c["items"]) - 1, 0xFFFF])
+    elif m == "no_region":
+        drop = str(G[rng.pick(["bat", "metadata"])])
+        c["rt1"] = dict(c["rt1"], entries=[e for e in c["rt1"]["entries"] if e[0] != drop])
+    elif m == "no_item":
+        drop = rng.pick(["file_parameters", "size", "id", "logical", "locator"])
+        c["items"] = [i for i in c["items"] if i[0] != drop]
+    elif m == "unknown_item":
+        c["unknown_item"] = rng.randbytes(8).hex()
+        c["items"].insert(rng.randrange(len(c["items"]) + 1),
+                          ["unknown", str(UUID(bytes=rng.randbytes(16))), c["items"][-1][2] + 4096, 1])
+    elif m == "zero":
+        c[rng.pick(["size", "sector_size"])] = 0
+    elif m == "locator_type" and loc:
+        loc["type"] = str(UUID(bytes=rng.randbytes(16)))
+    elif m == "bad_utf16" and loc:
+        loc["raw"] = [[k.encode("utf-16-le").hex(), v.encode("utf-16-le").hex()] for k, v in loc["entries"]]
+        i = rng.randrange(len(loc["raw"]))
+        if loc["entries"][i][0] != "relative_path":
+            loc["raw"][i][rng.randrange(2)] = rng.pick([b"a", b"\x00\xd8", b"\x00\xdc\x41\x00", b"\x00\xd8\x41\x00",
+                                                         b"a\x00b"]).hex()
+    elif m == "dup_key" and loc:
+        k, v = rng.pick(loc["entries"])
+        if k != "relative_path":
+            loc["entries"].append([k, v + "2"])
+            loc["order"] = None
+    elif m == "dup_region":
+        e = list(rng.pick(c["rt1"]["entries"]))
+        e[1] += 1 << 20
+        c["rt1"] = dict(c["rt1"], entries=c["rt1"]["entries"] + [e])
+    elif m == "block0":
+        c["block_size"] = 0
+    elif m == "locator_count" and loc:
+        loc["count"] = rng.pick([0, len(loc["entries"]) - 1, 0xFFFF])
+
+
+def x_hdr_spec(h):
+    return {"signature": bytes.fromhex(h["signature"]), "seq": h["seq"], "file_write_guid": bytes.fromhex(h["file_write_guid"]),
+            "data_write_guid": bytes.fromhex(h["data_write_guid"]), "log_guid": bytes.fromhex(h["log_guid"]),
+            "log_version": h["log_version"], "version": h["version"], "log_length": h["log_length"],
+            "log_offset": h["log_offset"]}
+
+
+def x_spec(c):
+    if c.get("malformed"):
+        return None
+    act = c["h1"] if c["h1"]["seq"] > c["h2"]["seq"] else c["h2"]
+    loc = None
+    if c["has_parent"]:
+        loc = {"type": UUID(c["locator"]["type"]).int, "entries": {k: v for k, v in c["locator"]["entries"]}}
+    return {"active": x_hdr_spec(act), "h1": x_hdr_spec(c["h1"]), "h2": x_hdr_spec(c["h2"]),
+            "regions1": [[UUID(g).int, o, ln, r] for g, o, ln, r in c["rt1"]["entries"]],
+            "regions2": [[UUID(g).int, o, ln, r] for g, o, ln, r in c["rt2"]["entries"]],
+            "mentries": [[UUID(g).int, rel, len(x_item_bytes(c, n)), f & 1, (f >> 1) & 1, (f >> 2) & 1]
+                         for n, g, rel, f in c["items"]],
+            "size": c["size"], "block_size": c["block_size"], "has_parent": c["has_parent"],
+            "sector_size": c["sector_size"], "id": UUID(bytes_le=bytes.fromhex(c["id"])).int, "locator": loc,
+            "bat_offset": [e for e in c["rt1"]["entries"] if e[0] == str(G["bat"])][0][1]}
+
+
+def x_model(v):
+    def hv(x):
+        f = tup(x)
+        return {"signature": b_of(f[0]), "seq": f[1], "file_write_guid": b_of(f[2]), "data_write_guid": b_of(f[3]),
+                "log_guid": b_of(f[4]), "log_version": f[5], "version": f[6], "log_length": f[7], "log_offset": f[8]}
+
+    def meta(x):
+        _, act, h1, h2, r1, r2, me, vals, loc, bat = tup(x)
+        size, bs, hp, ss, idv = tup(vals)
+        return {"active": hv(act), "h1": hv(h1), "h2": hv(h2), "regions1": [tup(r) for r in r1],
+                "regions2": [tup(r) for r in r2], "mentries": [tup(e) for e in me], "size": size, "block_size": bs,
+                "has_parent": hp, "sector_size": ss, "id": idv,
+                "locator": opt(loc, lambda l: {"type": tup(l)[0],
+                                               "entries": {s_of(k): s_of(w) for k, w in map(tup, tup(l)[1])}}),
+                "bat_offset": bat}
+    return res_map(v, meta)
+
+
+_PARENT_CACHE = {}
+
+
+def x_parent_bytes():
+    if "b" not in _PARENT_CACHE:
+        rng = core.Rng(12345)
+        pc = x_gen(rng, "quick", parent_ok=False)
+        chunks, size = x_build(pc)
+        _PARENT_CACHE["b"] = core.SparseFile(size, chunks, fill="zero").content(0, size)
+    return _PARENT_CACHE["b"]
+
+
+class VhdxSuite(Suite):
+    name = "vhdx"
+    shard = 15
+    preamble = Qcow2Suite.preamble
+
+    def generate(self, rng, tier):
+        n, nm = (700, 250) if tier == "thorough" else (70, 30)
+        return [x_gen(rng, tier) for _ in range(n)] + [x_gen(rng, tier, malformed=True) for _ in range(nm)]
+
+    def impl(self, case):
+        from dissect.hypervisor.disk import vhdx
+        chunks, size = x_build(case)
+        os.makedirs(SCRATCH, exist_ok=True)
+        d = tempfile.mkdtemp(dir=SCRATCH)
+        try:
+            with open(os.path.join(d, "parent.vhdx"), "wb") as fh:
+                fh.write(x_parent_bytes())
+            fh = core.SparseFile(size, chunks, fill="zero", name=os.path.join(d, "child.vhdx"))
+
+            def hv(h):
+                return {"signature": bytes(h.signature), "seq": int(h.sequence_number),
+                        "file_write_guid": bytes(h.file_write_guid), "data_write_guid": bytes(h.data_write_guid),
+                        "log_guid": bytes(h.log_guid), "log_version": int(h.log_version), "version": int(h.version),
+                        "log_length": int(h.log_length), "log_offset": int(h.log_offset)}
+
+            def op():
+                v = vhdx.VHDX(fh)
+                loc = None
+                if v.parent_locator is not None:
+                    loc = {"type": v.parent_locator.type.int, "entries": dict(v.parent_locator.entries)}
+                return {"active": hv(v.header), "h1": hv(v.headers[0]), "h2": hv(v.headers[1]),
+                        "regions1": [[UUID(bytes_le=bytes(e.guid)).int, int(e.file_offset), int(e.length), int(e.required)]
+                                     for e in v.region_tables[0].entries],
+                        "regions2": [[UUID(bytes_le=bytes(e.guid)).int, int(e.file_offset), int(e.length), int(e.required)]
+                                     for e in v.region_tables[1].entries],
+                        "mentries": [[UUID(bytes_le=bytes(e.item_id)).int, int(e.offset), int(e.length), int(e.is_user),
+                                      int(e.is_virtual_disk), int(e.is_required)] for e in v.metadata.entries],
+                        "size": int(v.size), "block_size": int(v.block_size), "has_parent": int(v.has_parent),
+                        "sector_size": int(v.sector_size), "id": v.id.int, "locator": loc, "bat_offset": int(v.bat.offset)}
+            return {"open": guard(op)}
+        finally:
+            shutil.rmtree(d, ignore_errors=True)
+
+    def coq_term(self, case):
+        chunks, size = x_build(case)
+        return f"x_case {rd_term(chunks, size)}"
+
+    def judge(self, case, impl_res, coq_val):
+        f = fault("vhdx", impl_res)
+        if f:
+            return f
+        fs = []
+        three_way("vhdx", case, impl_res["open"], x_model(coq_val), x_spec(case), fs, "open")
+        return fs
+
+    def nontrivial(self, case, impl_res, coq_val):
+        if case.get("malformed"):
+            return None
+        loc = case.get("locator")
+        if case["seq_rel"] != "eq" and (not loc or len(loc["entries"]) >= 2):
+            return core.sha(core.jdump(case).encode())
+        return None
+
+    def dist(self, case):
+        loc = case.get("locator")
+        return {"seq": case["seq_rel"], "has_parent": case["has_parent"],
+                "locator_entries": len(loc["entries"]) if loc else "none",
+                "locator_nonascii": bool(loc and any(nonascii(k + v) for k, v in loc["entries"])),
+                "locator_shuffled": bool(loc and loc.get("order") != list(range(2 * len(loc["entries"])))),
+                "regions": len(case["rt1"]["entries"]), "items_first": case["items"][0][0] if case["items"] else "none",
+                "malformed": case.get("malformed") or "no"}
+
+
+SUITES = {"qcow2": Qcow2Suite(), "vhdx": VhdxSuite()}
